@@ -151,23 +151,23 @@ def importExTransfer {α ι : Type} (H : Bytes → Bytes) (o : Oracles α ι) (e
   match s0.chains.lookup src with
   | none => fail s0 "src-unreg"
   | some router =>
-    if !supportedRouters.contains router then fail s0 "router" else
+    if router ∉ supportedRouters then fail s0 "router" else
     if env.height < routerStartBlock env.mainNet router then fail s0 "router" else
     match makeDepositProposal o router env s0 src inp with
     | .error c => fail s0 c
     | .ok (none, s1) =>
-      if router == VOTE_ROUTER || router == RIPPLE_ROUTER then ⟨.okPending, s1, []⟩ else ⟨.panic, s0, []⟩
+      if router = VOTE_ROUTER ∨ router = RIPPLE_ROUTER then ⟨.okPending, s1, []⟩ else ⟨.panic, s0, []⟩
     | .ok (some p, s1) =>
       let target := p.toChainID
       if target ∈ s1.black then fail s0 "dst-black" else
       match s1.chains.lookup target with
       | none => fail s0 "dst-unreg"
       | some trouter =>
-        if trouter == BTC_ROUTER then
+        if trouter = BTC_ROUTER then
           match o.btcMake env s1 p src with
           | some s2 => ⟨.okDelegated, s2, []⟩
           | none => fail s0 "verify"
-        else if trouter == RIPPLE_ROUTER then
+        else if trouter = RIPPLE_ROUTER then
           match o.rippleMake env s1 p src with
           | some s2 => ⟨.okDelegated, s2, []⟩
           | none => fail s0 "verify"
